@@ -45,10 +45,13 @@ impl Prop for C01 {
 
     fn strategy(tier: Tier) -> BoxedStrategy<Case> {
         let max = tier.pick(12, 40);
+        // thorough: one pair in 50 with up to 160 entries per side (deeper range recursion)
+        let big = tier.pick(12, 160);
+        let side = move || prop_oneof![49 => vec(egen(), 0..=max), 1 => vec(egen(), 0..=big)];
         (
             pools(8),
-            vec(egen(), 0..=max),
-            vec(egen(), 0..=max),
+            side(),
+            side(),
             prop::bool::weighted(0.15),
             prop::bool::weighted(0.15),
             sync_config(),
